@@ -261,6 +261,19 @@ def parts(tier):
                         rule="interval sets on spans [-4,-1] and [-4,0] x every s x d in {0.5, 1, 2} (the lengthened span may end exactly at 0; the inverse "
                              "may have to restore a span end of exactly 0), bit-exact", bounds={"oracle": "bit-exact"}, snippet=_snippet))
 
+    def gen_size():
+        for n, layout, e in D.size_family(quick):
+            hi = e[-1][1] + 1.0
+            for s0 in D.size_cuts(e):
+                if 0.0 <= s0 <= hi:
+                    for d in (0.5, 2.0):
+                        yield (e, 0.0, hi, s0, d)
+
+    ps.append(InputPart("insertSpace-size-sweep", gen_size, lambda c: _check_iv(c, True),
+                        rule="interval tiers of %s entries (gapped and contiguous) x insertion points just before / at / inside / at the end of the entries at "
+                             "both ends, at n/4, n/2, 3n/4 and at indices 8-10, 15-16, 255-257 x d in {0.5, 2} x 4 modes (+ the erase inverse): bit-exact"
+                             % (list(D.SIZES_QUICK if quick else D.SIZES_THOROUGH),), bounds={}, chunk=2))
+
     def gen_pt():
         for s in D.point_sets(D.unit_grid(5), 3 if quick else 4):
             p = D.labelled_points(s)
